@@ -743,7 +743,8 @@ pub fn c09(a: &Analysis, v: &mut Verdict) {
     // issued, and none disappears while its thread lives
     let mut by_tid: HashMap<usize, Vec<usize>> = HashMap::new();
     for (i, c) in a.cmds.iter().enumerate() {
-        if c.force {
+        // finish and cancel signals, however they were sent
+        if c.kind == 1 || c.kind == 2 {
             by_tid.entry(c.tid).or_default().push(i);
         }
     }
@@ -777,7 +778,17 @@ pub fn c09(a: &Analysis, v: &mut Verdict) {
                 None => {
                     // never consumed: fine only if it was lost in the exit flush with the ring still
                     // full, or no cycle drained the ring after it entered / after it was parked
-                    if c.lost && c.parked {
+                    if c.lost && c.parked && c.force {
+                        continue;
+                    }
+                    if c.lost && !c.parked {
+                        // given up on a full ring instead of being parked
+                        v.add(
+                            "C09",
+                            "C09.signals",
+                            "dropped-not-parked".into(),
+                            format!("thread {}: a {} signal (collect {}) was dropped because the ring was full instead of being kept", tid, if c.kind == 2 { "finish" } else { "cancel" }, c.collect),
+                        );
                         continue;
                     }
                     let since = c.entered.map(|li| log[li].step).unwrap_or_else(|| log[c.log_idx].step);
